@@ -86,6 +86,9 @@ FUNCTIONS = {
       {'after': 'sink = self._next_factory.CreateSink(self._properties)', 'do': ['self.g_attempts = self.g_attempts + 1']},
       # success: the fresh sink is installed, subscribed, and the down mark cleared
       {'after': 'self._down_on = None', 'do': ['prove(self._next == sink, "reopened-sink-installed")']},
+      # the only exceptions that lead to another round are failures of the attempt itself: a retry loop killed by Close()
+      # while it waits for the connect (GreenletExit raised inside sink.Open().get()) must end, not close-and-retry
+      {'before': 'sink.Close()', 'do': ['prove(not caught("GreenletExit"), "killed-loop-makes-no-further-attempt")']},
       {'after': 'wait_interval = min(wait_interval, self._max_wait_interval)', 'do': [
         'prove(wait_interval >= g_w and wait_interval <= self._max_wait_interval, "back-off-grows-up-to-the-cap")']},
     ],
